@@ -42,7 +42,7 @@ vars == <<srv, reqs, age, nreq, cbn, first, canc, win, out>>
 
 Statuses == {"Success", "DomainError", "AllDnsFail", "Timeout", "Fail"}
 ErrStatuses == {"DomainError", "AllDnsFail", "Fail"}
-Classes == {"ok", "nxdomain", "formerr", "servfail", "malformed", "notresp", "short"}
+Classes == {"ok", "nxdomain", "formerr", "servfail", "malformed", "tolerated", "notresp", "short"}
 AnyRes == [any |-> TRUE, a |-> <<>>, cn |-> <<>>]
 None == <<>>
 
@@ -116,6 +116,9 @@ Reply(s, k, cls, exp) ==
             ELSE \/ Count(k, f, x)                                        \* wait for the other servers
                  \/ /\ Cardinality(f) + x >= Cardinality(srv)             \* duplicates counted as servers: allowed
                     /\ Complete(k, "AllDnsFail", AnyRes, FALSE, cls)
+    [] cls = "tolerated" ->                                               \* reserved label types read as lengths: ignored, or exactly that reading
+         \/ Count(k, reqs[k].fails, reqs[k].extra + 1)
+         \/ Complete(k, "Success", exp, FALSE, cls)
     [] cls = "malformed" ->                                               \* statement: harmless; outcome open
          \/ Count(k, reqs[k].fails, reqs[k].extra + 1)
          \/ \E st \in Statuses \ {"Timeout"} : Complete(k, st, AnyRes, FALSE, cls)
